@@ -69,7 +69,7 @@ func (dist *PoissonDistribution) LogPdf(r Scalar, x ConstScalar) error {
   if v := x.GetFloat64(); math.Floor(v) != v {
     return fmt.Errorf("value `%f' is not an integer", v)
   }
-  if v := x.GetFloat64(); v < 0.0 {
+  if v := x.GetFloat64(); v < 0.0 || math.IsInf(v, 1) {
     r.SetFloat64(math.Inf(-1))
     return nil
   }
